@@ -560,7 +560,11 @@ def iirfilter(fs, N, Wn, rp, rs, btype, ftype, target):
     zo = zi * y[..., :1]
 
     while True:
-        y_filt, zo = signal.lfilter(b, a, y, zi=zo, axis=-1)
+        y_filt, zf = signal.lfilter(b, a, y, zi=zo, axis=-1)
+        # lfilter does not define the final state for an empty input: keep the
+        # current one.
+        if y.shape[-1] > 0:
+            zo = zf
         if isinstance(y, PipelineData):
             y_filt = PipelineData(y_filt, y.fs, y.s0, y.channel, y.metadata)
         target(y_filt)
@@ -942,7 +946,11 @@ def decimate(q, target):
     while True:
         # Filter only the new samples; the remainder carried over from the
         # previous chunk has already been filtered.
-        y_filt, zf = signal.lfilter(b, a, y, zi=zf, axis=-1)
+        y_filt, zf_new = signal.lfilter(b, a, y, zi=zf, axis=-1)
+        # lfilter does not define the final state for an empty input: keep the
+        # current one.
+        if y.shape[-1] > 0:
+            zf = zf_new
         if isinstance(y, PipelineData):
             y_filt = PipelineData(y_filt, y.fs, y.s0, y.channel, y.metadata)
         if y_remainder is not None:
